@@ -20,7 +20,7 @@ import (
 func init() { register("C11", c11) }
 
 // c11FirstLateRule: index of the first inequality rule in c11Rules (4 inequality rules, then list constructors and reducers).
-const c11FirstLateRule = 29
+const c11FirstLateRule = 30
 
 var c11Types = []string{"/any", "/number", "/string", "/name", "/a", "/a/b", "fn:Singleton(/a/x)", "fn:Union(/number, /string)", "fn:Union(/a, /b)", "/b", "fn:List(/number)",
 	"fn:Pair(/number, /name)", "fn:Map(/name, /number)", "fn:Struct(/f, /number)", "fn:Struct(/f, /number, fn:opt(/g, /string))", "/float64", "/bytes", "fn:List(/a)", "fn:Map(/any, /any)"}
@@ -40,6 +40,7 @@ var c11Rules = []string{
 	"p(X,Z) :- e(X,Y), :list:member(Z, Y).",
 	"p(X,Z) :- e(X,Y), :match_field(Y, /f, Z).",
 	"p(X,Z) :- e(X,Y), :match_field(Y, /g, Z).",
+	"p(X,Z) :- e(X,Y), :match_field(Y, /kind, Z).",
 	"p(X,Z) :- e(X,Y), :match_entry(Y, X, Z).",
 	"p(X,Z) :- e(X,Y), Z = fn:plus(X, 1).",
 	"p(X,Z) :- e(X,Y), Z = fn:name:root(Y).",
@@ -205,7 +206,7 @@ func c11(r *rt.Run) {
 	c11StructFamily(r)
 	c11NameFamily(r)
 	r.Finish("programs Decl e(A,B) bound[t1,t2]. Decl p(A,B) bound[s1,s2]. <facts of e> <rule> over a type alphabet (15 quick / 19 thorough), 44 rules (inequalities, list constructors over different element types, reducers with one and two arguments, copy, swap, positive and negated :match_prefix on a union of name-prefix types, constants, constructors, match predicates, accessors, arithmetic, recursion, let-transform) and fact sets drawn from the constants the declaration of e admits, plus every constant of the universe written as a fact in the program text (admission is then decided by the analysis alone); " +
-		"a name family (15 name-prefix / singleton / union types for both columns of e and the columns of p x 11 rules that make two differently typed variables equal); a struct family (11 struct types differing in one aspect at a time — required field type, presence and type of optional fields, nesting in a list — for the second column of e and p x all rules x facts carrying / lacking the optional fields); an undeclared recursive helper whose column type shifts per round through a multi-row conversion relation, feeding a declared predicate (3 conversions x 6 helper shapes x 7 declared bounds x 3 uses); a multi-row family (e declared with two bound rows, u/1 with a wide bound, 9 rule shapes incl. a variable bound earlier with a wider type and the 4th/5th distinct variable of a clause, every head row over 6 types and two-row heads); accepted-and-evaluated programs: every stored fact of e and p passes CheckTypeBounds; non-trivial = accepted programs that derive at least one p fact")
+		"a name family (15 name-prefix / singleton / union types for both columns of e and the columns of p x 11 rules that make two differently typed variables equal); a struct family (14 struct and tagged-union types differing in one aspect at a time — required field type, presence and type of optional fields, nesting in a list — for the second column of e and p x all rules x facts carrying / lacking the optional fields); an undeclared recursive helper whose column type shifts per round through a multi-row conversion relation, feeding a declared predicate (3 conversions x 6 helper shapes x 7 declared bounds x 3 uses); a multi-row family (e declared with two bound rows, u/1 with a wide bound, 9 rule shapes incl. a variable bound earlier with a wider type and the 4th/5th distinct variable of a clause, every head row over 6 types and two-row heads); accepted-and-evaluated programs: every stored fact of e and p passes CheckTypeBounds; non-trivial = accepted programs that derive at least one p fact")
 }
 
 // c11MultiRow: declarations with several bound rows. Every alternative row of a body predicate must
